@@ -411,7 +411,7 @@ Definition Dloc (m0 m : mem) (pc : tpc) : Prop :=
   | TLock (MW false) => m = m0
   | TReadBase (MW false) => lck m0 = 0 /\ m = apply_wrs m0 [WLock 1]
   | TWriteBase (MW false) b => lck m0 = 0 /\ b = base m0 /\ m = apply_wrs m0 [WLock 1]
-  | TReadTop (MW false) b | TSlot (MW false) b | TRollback (MW false) b =>
+  | TReadTop (MW false) b | TSlot (MW false) b | TDecide false b | TRollback (MW false) b =>
       lck m0 = 0 /\ b = base m0 /\ m = apply_wrs m0 [WLock 1; WBase (b + 1)]
   | TUnlock r => r = 0 /\ lck m0 = 0 /\ m = apply_wrs m0 [WLock 1]
   | TDone r => r = 0 /\ m = m0
@@ -423,15 +423,15 @@ Lemma Dloc_step m0 m pc ws pc' g :
   Dloc m0 (apply_wrs m ws) pc' /\ g = GNone.
 Proof.
   intros D E. destruct m0 as [t0 b0 l0 p0 s0 c0].
-  destruct pc as [| | |md|md|md b|md b|md b|md b| | | | | | | | | | ]; cbn [Dloc] in D; try contradiction;
-    try (destruct md as [|[|]|]; try contradiction); cbn [thief_tick] in E; try discriminate.
-  - subst m. cbn in *. destruct (Z.eqb_spec l0 0) as [->|]; inversion E; subst; cbn; auto.
-  - destruct D as (L & ->). inversion E; subst. cbn in *. auto.
-  - destruct D as (L & -> & ->). inversion E; subst. cbn in *. auto.
-  - destruct D as (L & -> & ->). cbn in *. destruct (b0 <? t0); inversion E; subst; cbn; auto.
-  - destruct D as (L & -> & ->). inversion E; subst. cbn in *. auto.
-  - destruct D as (L & -> & ->). inversion E; subst. cbn in *. subst l0. auto.
-  - destruct D as (-> & L & ->). inversion E; subst. cbn in *. subst l0. auto.
+  destruct pc; cbn [Dloc] in D; try contradiction;
+    repeat match goal with md : tmode |- _ => destruct md as [|[|]|]; cbn [Dloc] in D; try contradiction end;
+    repeat match goal with d : bool |- _ => destruct d; cbn [Dloc] in D; try contradiction end;
+    cbn [thief_tick] in E; try discriminate;
+    repeat match goal with H : _ /\ _ |- _ => destruct H end; subst; cbn in *;
+    repeat match type of E with
+           | context [if ?c =? ?d then _ else _] => destruct (Z.eqb_spec c d)
+           | context [if ?c then _ else _] => destruct c
+           end; inversion E; subst; cbn; auto.
 Qed.
 
 Lemma Dloc_titer m0 : forall k m pc P R m' pc' P' R',
@@ -487,8 +487,9 @@ Lemma Ploc_step m0 m pc ws pc' g :
   Ploc m0 (apply_wrs m ws) pc' /\ g = GNone.
 Proof.
   intros D E. unfold qeq in *.
-  destruct pc as [| | |md|md|md b|md b|md b|md b| | | | | | | | | | ]; cbn [Ploc] in D; try contradiction;
-    try (destruct md as [|[|]|]; try contradiction); cbn [thief_tick] in E; try discriminate;
+  destruct pc; cbn [Ploc] in D; try contradiction;
+    repeat match goal with md : tmode |- _ => destruct md as [|[|]|]; cbn [Ploc] in D; try contradiction end;
+    cbn [thief_tick] in E; try discriminate;
     unfold peek_start in E;
     repeat match type of E with
            | context [if lck m =? 0 then _ else _] => destruct (Z.eqb_spec (lck m) 0)
